@@ -320,10 +320,20 @@ fn c08_positions(tier: Tier) -> Vec<Pos> {
     }
     // promotion races for both colours: a pawn one step from promotion with a piece each side
     // (PAWN7 and its flips; five men, so the plain reference is affordable at every depth)
-    // (index layout of PAWN7: file, wk, bk, x, y | kind of x (4) | kind of y (4) | side to move (2);
-    // the heavy-piece pairs, where a promotion decides most, get half of the slice)
-    let p7 = Pawn7;
     let want: u64 = if tier == Tier::Quick { 3_000 } else { 150_000 };
+    for p in pawn7_slice(want) {
+        out.push(p.flip());
+        out.push(p);
+    }
+    out
+}
+
+/// A slice of PAWN7 (a pawn one step from promotion, both kings, one more piece per side).
+/// Index layout: file, wk, bk, x, y | kind of x (4) | kind of y (4) | side to move (2); the
+/// heavy-piece pair, where a promotion decides most, gets half of the slice.
+fn pawn7_slice(want: u64) -> Vec<Pos> {
+    let p7 = Pawn7;
+    let mut out = Vec::new();
     let inner: u64 = 8 * 64 * 64 * 64 * 64;
     for kx in 0..4u64 {
         for ky in 0..4u64 {
@@ -336,7 +346,6 @@ fn c08_positions(tier: Tier) -> Vec<Pos> {
                     let idx = j + inner * (kx + 4 * (ky + 4 * stm));
                     if let Some(p) = p7.decode(idx) {
                         if p.has_legal_move() {
-                            out.push(p.flip());
                             out.push(p);
                         }
                     }
@@ -1038,6 +1047,11 @@ pub fn run_c11(tier: Tier) -> i32 {
     for f in ["6k1/5ppp/8/8/8/8/8/R3K3 w Q - 0 1", "7k/8/5KQ1/8/8/8/8/8 w - - 0 1", "k7/8/1K6/8/8/8/8/7R w - - 0 1", "r1bqkbnr/pppp1ppp/2n5/4p3/2B1P3/5Q2/PPPP1PPP/RNB1K1NR w KQkq - 0 1"] {
         sp.push(Pos::from_fen(f).unwrap());
     }
+    // promotion races (a pawn one step from promotion next to heavy pieces): the only place where the
+    // search treats the two colours by separately written conditions on ranks
+    let n_general = sp.len();
+    sp.extend(pawn7_slice(if tier == Tier::Quick { 3_000 } else { 60_000 }));
+    let n_races = sp.len() - n_general;
     let searches = AtomicU64::new(0);
     par_map_fine(&sp, |p| {
         let f = p.flip();
@@ -1062,7 +1076,7 @@ pub fn run_c11(tier: Tier) -> i32 {
         s1.quit();
         s2.quit();
     });
-    fams.push(json!({"family": "go depth 1..3 on P and flip(P)", "positions": sp.len(), "searches": searches.load(Ordering::Relaxed), "secs": t0.elapsed().as_secs_f64()}));
+    fams.push(json!({"family": "go depth 1..3 on P and flip(P)", "positions": sp.len(), "of_which_promotion_races_from_PAWN7": n_races, "searches": searches.load(Ordering::Relaxed), "secs": t0.elapsed().as_secs_f64()}));
 
     let mut cov = Coverage::new();
     cov.states = static_n.load(Ordering::Relaxed) + terms.len() as u64;
